@@ -282,6 +282,13 @@ def scripted(kind, md, model, args, xs, s, rng):
             out, st = state(lambda: mcmc.hmc(tr, selpy, eps, nsteps))()
         c["accept"] = bool(st["accept"])
         c["final"] = [fr(v) for v in read_values(md, out.get_choices())]
+        # coherence of the returned trace (C05): score = -assess(its choices) under the arguments it records,
+        # return value = the program's on those choices, recorded arguments unchanged
+        a0, k0 = out.get_args()
+        lp, rv = out.get_gen_fn().assess(out.get_choices(), *a0, **k0)
+        c["coherent"] = bool(abs(float(out.get_score()) + float(lp)) <= 1e-4 * (1.0 + abs(float(lp)))
+                             and np.allclose(np.asarray(rv), np.asarray(out.get_retval()), rtol=1e-5, atol=1e-6)
+                             and all(float(x) == float(y) for x, y in zip(a0, tr.get_args()[0])))
         c["log_alpha"] = fr(st["verif_log_alpha"]) if "verif_log_alpha" in st else None
         c["logu"] = fr(jnp.log(jnp.float32(u)))
     except Exception as e:  # noqa: BLE001
